@@ -11,6 +11,9 @@ where the mathematical result does not exist the operator returns an error.
 import CtrlVerif.Lemmas.TF
 import CtrlVerif.Model.C01Expr
 import CtrlVerif.Lemmas.C01Expr
+import CtrlVerif.Model.TFDyn
+import Mathlib.LinearAlgebra.Matrix.NonsingularInverse
+import Mathlib.LinearAlgebra.Matrix.ZPow
 
 namespace CtrlVerif.C01
 
@@ -499,4 +502,110 @@ example : (add (ctor fun (_ _ : Fin 1) => (⟨[1], [0, 0]⟩ : Frac ℚ)) (scala
   rw [he, tree_error_kind _ err he]
 
 end nonvacuity
+end CtrlVerif.C01
+
+/-! ## Dispatch outcomes `notImplemented`, and what a returned system would have to be
+
+The run-time layer (`Model/TFDyn.lean`) answers `notImplemented` exactly where the code's guards
+do: a MIMO divisor (`G / H`, `H / G` seen from `__rtruediv__`), a negative power of a MIMO
+system (`M ** -n` is `(tf(1) / M) * M ** (-n + 1)`), MIMO feedback.  These outcomes do not
+depend on the other operand (a guard such as "both operands are MIMO" is a different function).
+
+If an implementation *returns* a system `X` there, the property still says what `X` must be.
+The criteria below are the ones the correspondence check evaluates, in exact rational-function
+arithmetic, on such a returned system (`harness/families/c01.py: judge_not_implemented`):
+`X * B = A` with `B` square and `det B` a unit is the same as `X = A * B⁻¹`; `X * M ^ k = 1`
+forces `X = (M⁻¹) ^ k`; `(1 - s • G * H) * X = G` is the same as `X = (1 - s • G * H)⁻¹ * G`;
+and a matrix whose determinant is not a unit has no inverse at all. -/
+
+namespace CtrlVerif.C01
+
+open CtrlVerif Matrix
+
+section dispatch
+variable {K : Type} [Field K] [DecidableEq K]
+
+/-- `G / H` with a MIMO `H` is `NotImplemented`, whatever `G` is (SISO or MIMO). -/
+theorem truediv_mimo_divisor (G H : DTF K) (hH : H.isSiso = false) :
+    G.truedivCore H = .error .notImplemented := by
+  simp [DTF.truedivCore, hH]
+
+/-- `other / self` through `__rtruediv__` with a MIMO `self` is `NotImplemented`. -/
+theorem rtruediv_mimo_divisor (self other : DTF K) (h : self.isSiso = false) :
+    self.rtruedivCore other = .error .notImplemented := by
+  simp [DTF.rtruedivCore, h]
+
+/-- `1 / M` for a MIMO `M`. -/
+theorem recip_mimo (G : DTF K) (h : G.isSiso = false) : G.recip = .error .notImplemented := by
+  simp [DTF.recip, h]
+
+/-- `M ** -(k+1)` for a MIMO `M` is `NotImplemented` (never the SISO system `1 / M[0,0]^(k+1)`). -/
+theorem neg_pow_mimo (G : DTF K) (h : G.isSiso = false) (k : Nat) :
+    G.pow (Int.negSucc k) = .error .notImplemented := by
+  simp only [DTF.pow, DTF.powNegNat, recip_mimo G h]
+  rfl
+
+/-- feedback with a MIMO system on either side is `NotImplemented`. -/
+theorem feedback_mimo (G H : DTF K) (sign : K) (h : G.isSiso = false ∨ H.isSiso = false) :
+    G.feedbackCore H sign = .error .notImplemented := by
+  rcases h with h | h <;> simp [DTF.feedbackCore, h]
+
+/-- non-vacuity: a SISO dividend over a `2 × 2` divisor, `M ** -1`, `M ** -2`, and `2 × 2`
+feedback. -/
+example : (DTF.ofScalar (3 : ℚ) 1 1).truedivCore (DTF.ofScalar 1 2 2) = .error .notImplemented :=
+  truediv_mimo_divisor _ _ rfl
+example : (DTF.ofScalar (1 : ℚ) 2 2).pow (-1) = .error .notImplemented :=
+  neg_pow_mimo _ rfl 0
+example : (DTF.ofScalar (1 : ℚ) 1 3).pow (-2) = .error .notImplemented :=
+  neg_pow_mimo _ rfl 1
+example : (DTF.ofScalar (1 : ℚ) 2 2).feedbackCore (DTF.ofScalar 1 1 1) (-1)
+    = .error .notImplemented :=
+  feedback_mimo _ _ _ (Or.inl rfl)
+
+end dispatch
+
+section criteria
+variable {R : Type*} [CommRing R]
+variable {m n : Type*} [Fintype m] [Fintype n] [DecidableEq n] [DecidableEq m]
+
+/-- a returned `X` is the quotient `A * B⁻¹` iff `X * B = A` (for an invertible divisor). -/
+theorem quotient_criterion (A X : Matrix m n R) (B : Matrix n n R) (hB : IsUnit B.det) :
+    X * B = A ↔ X = A * B⁻¹ := by
+  constructor
+  · rintro rfl
+    rw [Matrix.mul_nonsing_inv_cancel_right _ _ hB]
+  · rintro rfl
+    rw [Matrix.nonsing_inv_mul_cancel_right _ _ hB]
+
+/-- a returned `X` with `X * M ^ k = 1` is the `k`-th power of the inverse. -/
+theorem neg_pow_criterion (M X : Matrix n n R) (k : ℕ) (h : X * M ^ k = 1) : X = M⁻¹ ^ k := by
+  rw [← Matrix.inv_eq_left_inv h, Matrix.inv_pow']
+
+/-- a returned closed loop `X` of a `p × m` system `G` with an `m × p` return path `H`. -/
+theorem feedback_criterion (G X : Matrix m n R) (H : Matrix n m R) (s : R)
+    (hL : IsUnit (1 - s • (G * H)).det) :
+    (1 - s • (G * H)) * X = G ↔ X = (1 - s • (G * H))⁻¹ * G := by
+  constructor
+  · intro h
+    have h2 : (1 - s • (G * H))⁻¹ * ((1 - s • (G * H)) * X) = (1 - s • (G * H))⁻¹ * G := by rw [h]
+    rwa [Matrix.nonsing_inv_mul_cancel_left _ _ hL] at h2
+  · rintro rfl
+    rw [Matrix.mul_nonsing_inv_cancel_left _ _ hL]
+
+/-- a divisor whose determinant is not a unit (over a field: is zero) has no inverse: then no
+system is "A * inv(B)". -/
+theorem no_inverse_of_det_not_unit (B : Matrix n n R) (h : ¬ IsUnit B.det) :
+    ¬ ∃ C : Matrix n n R, C * B = 1 := by
+  rintro ⟨C, hC⟩
+  exact h (Matrix.isUnit_det_of_left_inverse hC)
+
+/-- non-vacuity: `!![1, 1; 0, 1]` is invertible over `ℚ`, `!![1, 1; 1, 1]` is not. -/
+example : IsUnit (!![1, 1; 0, 1] : Matrix (Fin 2) (Fin 2) ℚ).det := by
+  simp [Matrix.det_fin_two]
+example : ¬ IsUnit (!![1, 1; 1, 1] : Matrix (Fin 2) (Fin 2) ℚ).det := by
+  simp [Matrix.det_fin_two]
+example : (!![1, -1; 0, 1] : Matrix (Fin 2) (Fin 2) ℚ) * !![1, 1; 0, 1] ^ 1 = 1 := by
+  ext i j; fin_cases i <;> fin_cases j <;> simp [Matrix.mul_apply, Fin.sum_univ_two]
+
+end criteria
 end CtrlVerif.C01
